@@ -242,3 +242,11 @@ def c17(tier, seed):
 
 
 CHECKS.update({"C17": c17})
+
+
+def c15(tier, seed):
+    import c15 as m
+    return m.run(tier, seed)
+
+
+CHECKS.update({"C15": c15})
